@@ -372,7 +372,8 @@ def gen_case(rng, idx, tier):
     grid = [[x, y] for x in range(-1, w + 1) for y in range(-1, h + 1)]
     if len(grid) > 400:
         grid = [[-1, -1], [0, 0], [w - 1, h - 1], [w, h], [w - 1, 0], [0, h - 1]] + rng.sample(grid, 60)
-    return dict(mq=grid, kind="valid" if malformed is None else malformed, dims=[w, h], boot=list(boot), fill=fill,
+    return dict(copy=rng.choice([None] * 7 + ["copy", "deepcopy", "pickle", "pickle0", "items-deepcopy", "positional", "replace"]),
+                mq=grid, kind="valid" if malformed is None else malformed, dims=[w, h], boot=list(boot), fill=fill,
                 routes=routes, chips=chips, sver=sver, probes=probes, sver_queries=sq, contains_queries=cq,
                 also_get_machine=(idx % 5 == 0), sliver=sliver)
 
@@ -475,7 +476,7 @@ def text(codes):
     return "".join(chr(k) for k in codes)
 
 
-def oracle(c, out):
+def oracle_one(c, out):
     """The sentences of C14 decided on the implementation's observations against the ground truth.
     Returns a list of (key, message)."""
     bad = []
@@ -646,6 +647,20 @@ def oracle(c, out):
     return bad
 
 
+def oracle(c, out):
+    """The oracle on what was probed and, when the description was also passed through a copying protocol (or rebuilt
+    positionally), on the copy and on everything derived from the copy."""
+    bad = oracle_one(c, out)
+    if isinstance(out, dict) and "copy" in out and c["kind"] == "valid" and out["copy"].get("sysinfo", ["ok"])[0] != "ok" \
+            and out.get("sysinfo", ["err"])[0] == "ok":
+        return bad + [("copy-unreadable:via-" + c["copy"], "the description after %s can no longer be read back: %r (fields of "
+                       "the wrong type / in the wrong place)" % (c["copy"], out["copy"]["sysinfo"]))]
+    if isinstance(out, dict) and "copy" in out and c["kind"] == "valid":
+        sub = oracle_one(dict(c, probes=[], sver_queries=[]), dict(out["copy"], sver=[], probes=[]))
+        bad += [(key + ":via-" + c["copy"], "description after %s: %s" % (c["copy"], why)) for key, why in sub]
+    return bad
+
+
 # ------------------------------------------------------------------------------------------- Coq literals
 def zl(l):
     return vlist(zlit(v) for v in l)
@@ -798,6 +813,20 @@ def case_exprs(c, out, sim, tag="k", known=None):
         tl = out["target_lengths"]
         add("target_lengths", "false" if (tl and tl[0] == "err") else
             "hash_ll (map (fun t => [fst (fst t); snd (fst t); snd t]) (target_lengths si)) =? %s" % zlit(hll(tl)))
+        cp = out.get("copy")
+        if isinstance(cp, dict):                 # copying a description is the identity in the model
+            if cp.get("sysinfo", ["err"])[0] != "ok":
+                add("copy:sysinfo", "false")
+            else:
+                csi = cp["sysinfo"]
+                add("copy:sysinfo", "hash_ll (flat_sysinfo si) =? %s" % zlit(hll([[csi[1], csi[2]]] + [r[:2] + flat_ci(r[2:]) for r in csi[3]])))
+                add("copy:ethernet", "hash_ll (flat_eth (si_ethernet si)) =? %s" % zlit(hll([[x, y] + ip for x, y, ip in cp["si_eth"]])))
+                add("copy:machine", "false" if not isinstance(cp.get("machine"), dict) else
+                    "hash_lll (flat_machine (build_machine si)) =? %s" % zlit(hlll(flat_machine(cp["machine"]))))
+                cc = cp.get("constraints")
+                add("copy:constraints", "false" if (cc is None or (cc and cc[0] == "err")) else
+                    "llz_eqb (flat_constraints (build_core_constraints si)) %s" % zll(
+                        [[s_, e_] + ([0] if loc is None else [1] + loc) for s_, e_, loc, ok in cc]))
         body = "match R_%s with Ok si => %s | _ => [false] end" % (tag, vlist(parts))
     exprs = ["(" + head + body + ")"]
     all_names = list(names)
@@ -897,6 +926,7 @@ def process_batch(chk, sim, cases, state, built):
         chk.count("kind:" + c["kind"])
         chk.count("size:%s" % ("sliver" if c.get("sliver") else "%dx%d" % (min(c["dims"][0], 12) // 4 * 4, min(c["dims"][1], 12) // 4 * 4)))
         chk.count("sver:" + c["sver"]["encoding"])
+        chk.count("description-copied:%s" % c.get("copy"))
         chk.count("sver-trailing-nuls:%s" % min(c["sver"].get("nuls", 1), 2))
         for pr in c["probes"]:
             for bi, b in enumerate(pr["iobuf"]):
@@ -1049,7 +1079,9 @@ def run(chk, args):
                             "32-bit extremes, router blocks 0..2047, both sver encodings (0 / 1 / several trailing NULs), 1-3 probed cores with IOBUF chains of 0-5 "
                             "blocks (text, random binary, valid bytes containing and ending in NUL bytes in first / middle / last blocks); every 8th machine malformed (correspondence only); every 6th case a history: ONE controller probing 2-3 "
                             "successive states of the same machine (different vcpu_base, iobuf_size, vcpu blocks, IOBUF chains, core counts, "
-                            "states, links, memory, answering chips), each probe judged against the state current at that call; every 12th case several controllers in one interpreter, each "
+                            "states, links, memory, answering chips), each probe judged against the state current at that call; the description is also passed through copy / deepcopy / "
+                            "pickle (two protocols) / positional reconstruction / _replace and the copy (with the Machine and reservations "
+                            "built from it) judged by the same oracle; every 12th case several controllers in one interpreter, each "
                             "with its own struct layout (sv / vcpu fields moved, vcpu resized and permuted) and its own machine, A-B / B-A / "
                             "interleaved; thorough tier adds exhaustive sweeps (every table height "
                             "1..255, every link mask, every core count 0..31, every AppState in every core position, every router "
